@@ -6,11 +6,12 @@ open PttVerif PttVerif.C12
 ops:
   layout
   reset <users> <letters> <dirs> <pool> <seed> <tail> <nrec> <slot>*nrec
-      users   : csv of hex ids (`.` = empty slot) or `-`        letters : hex of the <c> with boards/<c>, or `-`
+      users   : csv of hex id[=level] (`.` = empty) or `-`         letters : hex of the <c> with boards/<c>, or `-`
       dirs    : csv of hex board-directory names or `-`         pool    : csv of hex names (≤ 13 bytes) or `-`
       slot    : <c|j>:<name hex>:<title hex>:<bm hex>:<attr>:<chess>:<level>:<gid>     (j: LCG filler in every
                 other byte, c: zeros)
   newbm <csv of hex ids | ->                      ptttype.NewBM on these UserID_t values: the 39 bytes of the BM_t
+  bcreate <userid hex> <cls> <name hex> <class hex> <title hex> <bms csv hex|-> <attr> <level> <chess> <0|1>   bbs.CreateBoard
   create <user hex> <ulevel> <uid> <cls> <name hex> <class hex> <title hex> <bms hex|nil> <attr> <level> <chess> <0|1>
 answers:
   reset  : ok <observation>
@@ -286,6 +287,19 @@ def parseCsvBytes (s : String) (maxLen : Nat) : Option (List Bytes) :=
   else (s.splitOn ",").mapM fun t => if t = "." then some [] else
     (if t = "-" then none else parseBytes t maxLen)
 
+/-- the user column of a reset line: csv of `<hex id>` or `<hex id>=<level>` (`.` = empty slot), `-` = none. -/
+def parseUsers (s : String) : Option (List (Bytes × Nat)) :=
+  if s = "-" then some []
+  else (s.splitOn ",").mapM fun t =>
+    if t = "." then some ([], 0) else
+    match t.splitOn "=" with
+    | [h] => if h = "-" then none else (parseBytes h 13).map fun b => (b, 0)
+    | [h, l] => if h = "-" then none else
+        match parseBytes h 13, parseU32 l with
+        | some b, some l => some (b, l)
+        | _, _ => none
+    | _ => none
+
 /-! ### record images -/
 
 def fieldOff (name : String) : Nat :=
@@ -378,6 +392,7 @@ def sortBytes (xs : List Bytes) : List Bytes := xs.foldl (fun acc x => insertSor
 structure DS where
   s : State
   pool : List Bytes
+  levels : List Nat := []
   sortBad : Bool := false
 
 /-- the sorter the driver runs the model with: Go's, remembering whether any output broke `SortSpec`
@@ -453,7 +468,7 @@ def emptyState : State :=
 def doReset (ws : List String) : Option (DS × String) :=
   match ws with
   | users :: letters :: dirs :: pool :: seed :: tail :: nrec :: slots =>
-      match parseCsvBytes users 13, parseBytes letters 256, parseCsvBytes dirs 13, parseCsvBytes pool 13,
+      match parseUsers users, parseBytes letters 256, parseCsvBytes dirs 13, parseCsvBytes pool 13,
             parseNat seed 19, parseNat tail 3, parseNat nrec 3 with
       | some users, some letters, some dirs, some pool, some seed, some tail, some nrec =>
           if users.length > MAXU ∨ tail ≥ 256 ∨ nrec > 2 * MAXB ∨ slots.length ≠ nrec then none else
@@ -461,14 +476,14 @@ def doReset (ws : List String) : Option (DS × String) :=
           | none => none
           | some recs =>
               let tailBytes := (lcgFill (seed + 7) tail).toList
-              let s0 : State := { emptyState with brd := recs, tail := tailBytes, users := users.map (copyInto 13),
+              let s0 : State := { emptyState with brd := recs, tail := tailBytes, users := users.map (copyInto 13 ·.1),
                                                   letters := letters, dirs := dirs }
               -- ReloadBCache: the whole file (torn tail included) is copied over BCache
               let n := min recs.length MAXB
               let c0 := recs.take MAXB ++ s0.cache.drop n
               let c1 := if tail > 0 ∧ n < MAXB then c0.set n (ofImage (copyInto 256 tailBytes).toArray) else c0
               let s1 := sortBCache drvSort { s0 with cache := c1, bnumber := n }
-              let ds : DS := { s := s1, pool := pool }
+              let ds : DS := { s := s1, pool := pool, levels := users.map (·.2) }
               some (ds, "ok " ++ observe pool s0 s1 none)
       | _, _, _, _, _, _, _ => none
   | _ => none
@@ -488,6 +503,23 @@ def parseReq (ws : List String) : Option Req :=
       | _, _, _, _, _, _, _, _, _, _, _ => none
   | _ => none
 
+def parseBbs (ws : List String) : Option BbsArgs :=
+  match ws with
+  | [user, cls, name, bclass, btitle, bms, attr, level, chess, g] =>
+      match parseBytes user 32, parseI32 cls, parseBytes name 32, parseBytes bclass 64, parseBytes btitle 128,
+            parseCsvBytes bms 16, parseU32 attr, parseU32 level, parseNat chess 3 with
+      | some user, some cls, some name, some bclass, some btitle, some bms, some attr, some level, some chess =>
+          if chess > 255 ∨ (g ≠ "0" ∧ g ≠ "1") then none else
+          some { userID := user, cls := cls, name := name, bclass := bclass, btitle := btitle, bms := bms,
+                 attr := attr, level := level, chess := chess, isGroup := g = "1" }
+      | _, _, _, _, _, _, _, _, _ => none
+  | _ => none
+
+def showBbs : BbsRes → String
+  | .invalidParams => "invalid-params"
+  | .invalidUser => "invalid-user"
+  | .inner r => showRes r
+
 def stepC12 (st : Option DS) (ws : List String) : Option DS × String :=
   match ws with
   | ["layout"] => (st, layoutLine)
@@ -499,6 +531,16 @@ def stepC12 (st : Option DS) (ws : List String) : Option DS × String :=
       match parseCsvBytes ids 13 with
       | some ids => (st, toHex (newBM (ids.map (copyInto 13))))
       | none => (st, "bad-op")
+  | "bcreate" :: rest =>
+      match st, parseBbs rest with
+      | some ds, some a =>
+          let (s', r) := bbsCreate drvSort ds.s ds.levels a
+          let slot := match r with
+            | .ok (.inner (.ok b)) => some (b - 1)
+            | _ => none
+          let out := showM showBbs r ++ " " ++ observe ds.pool ds.s s' slot
+          (some { ds with s := s' }, if checkSorted s' || r.toBool = false then out else "sortspec-violated " ++ out)
+      | _, _ => (st, "bad-op")
   | "create" :: rest =>
       match st, parseReq rest with
       | some ds, some q =>
